@@ -4,8 +4,10 @@
  *   reader   x_verif_read: at stream offset rd it delivers k = min(T[rd], length, L - rd) bytes (T symbolic, >= 1): every legal
  *            sequence of read sizes is some table T (a non-empty read strictly advances rd, so every call has its own entry);
  *            0 is returned only at the end of the stream
- *   state    buffer_input< vreader, lf_crlf, const char*, CHUNK >( "", maximum ), maximum symbolic, followed by NSETUP real
- *            operations chosen symbolically among require(a) / bump(k <= occupied) / discard()
+ *   state    buffer_input< vreader, lf_crlf, const char*, CHUNK >( "", maximum ) followed by NSETUP real operations
+ *            require(a) / bump(k <= occupied) / discard() with symbolic arguments (the invariant is established, not assumed)
+ *   step     one more real operation (or one real rule); the harness sees the input only through its public interface
+ *            (x_verif_snap: current(), byte(), line(), column(), buffer_occupied/free_before_current/free_after_end/capacity)
  */
 #ifndef CHUNK
 #define CHUNK 2
@@ -30,72 +32,19 @@
 #include "verif.h"
 
 #ifndef VF_REAL
+#ifndef C07_THIN
 /* libstdc++ externals of  throw std::overflow_error( "..." ): the exception object is only ever identified by its type (ll2c lowers
  * __cxa_throw / landing pads and knows std::overflow_error -> std::runtime_error -> std::exception); what() is never called */
 void x__ZNSt14overflow_errorC1EPKc(PS_class_std__overflow_error self, Pu8 msg) { (void)self; (void)msg; }
 void x__ZNSt14overflow_errorD1Ev(PS_class_std__overflow_error self) { (void)self; }
 #endif
-/* the library's own assert()s (buffer_occupied, buffer_free_*, constructor) are checked, not assumed */
-void x___assert_fail(Pu8 a, Pu8 b, u32 c, Pu8 d) { (void)a; (void)b; (void)c; (void)d; CHECK(0, "library assert() failed"); }
-
-static u8 S_[LMAX + 1], *S; static u64 L, rd, T[LMAX + 1];
-static u64 n_calls, n_short, n_full, n_zero;
-static u8 *base_; static u64 M_, maximum_;
-static void *h_;
-
-u64 x_verif_read(u8 *buffer, u64 length) {
-  n_calls++;
-  CHECK(length >= 1, "the reader is never asked for zero bytes (it may return 0 only at the end of the stream)");
-  CHECK(buffer >= base_ && (u64)(buffer - base_) <= M_ && length <= M_ - (u64)(buffer - base_), "the reader is only asked to write inside the buffer");
-#ifndef __CPROVER__
-  if (!(buffer >= base_ && (u64)(buffer - base_) <= M_ && length <= M_ - (u64)(buffer - base_))) return 0;
 #endif
-  if (rd >= L) { n_zero++; return 0; }
-  u64 full = L - rd; if (length < full) full = length;
-  u64 k = T[rd < LMAX ? rd : LMAX]; if (k > full) k = full;
-  if (k < full) n_short++; else n_full++;
-  for (u64 i = 0; i < LMAX && i < CAPMAX; ++i) if (i < k) buffer[i] = S[rd + i];
-  rd += k;
-  return k;
-}
-
-/* action log of the rule queries */
-#define ALOG 8
-static u64 al_[2][ALOG][6]; static unsigned al_n[2], al_sel;
-void x_verif_act(u32 id, u64 byte, u64 line, u64 col, u64 size, u64 sum) {
-  unsigned n = al_n[al_sel];
-  if (n < ALOG) { u64 *e = al_[al_sel][n]; e[0] = id; e[1] = byte; e[2] = line; e[3] = col; e[4] = size; e[5] = sum; }
-  al_n[al_sel] = n + 1;
-}
+/* the library's own assert()s (buffer_occupied, buffer_free_*, constructors) are checked, not assumed */
+void x___assert_fail(Pu8 a, Pu8 b, u32 c, Pu8 d) { (void)a; (void)b; (void)c; (void)d; CHECK(0, "library assert() failed"); }
 void x_verif_event(u32 kind, u32 rule, u64 a, u64 b) { (void)kind; (void)rule; (void)a; (void)b; }
 u32 x_verif_sym(u32 k, u64 pos, u32 a, u32 m, u64 *np) { *np = pos; return 0; }
 u32 x_verif_sym2(u32 k, u64 pos, u64 end, u32 a, u32 m, u64 *np) { *np = pos; return 0; }
 u32 x_verif_veto(u32 rule, u64 b, u64 e) { return 1; }
-
-typedef struct { u64 byte, line, col, occ, c, fr, cap; } st_t;
-static st_t observe(void) {
-  u64 o[7]; w_state(h_, o);
-  st_t s = { o[0], o[1], o[2], o[3], o[4], o[5], o[6] };
-  return s;
-}
-static u8 win_[CAPMAX + 1];
-/* representation invariant, as far as the public interface shows it */
-static void invariant(st_t s) {
-  CHECK(s.cap == M_, "capacity is maximum + Chunk");
-  CHECK(s.c <= M_ && s.occ <= M_ - s.c && s.c + s.occ + s.fr == M_, "buffer <= current <= end <= buffer + capacity");
-  CHECK(s.byte + s.occ == rd && rd <= L, "bytes consumed + bytes buffered = bytes read from the stream (nothing lost, nothing duplicated)");
-  u64 n = s.occ <= CAPMAX ? s.occ : CAPMAX;
-  w_window(h_, (char *)win_, n);
-  for (u64 i = 0; i < CAPMAX; ++i) if (i < n && s.byte + i < L) CHECK(win_[i] == S[s.byte + i], "the buffered window is the stream at the consumed offset");
-}
-static void recount(u64 byte, u64 *line, u64 *col) {
-  u64 l = 1, c = 1;
-  for (u64 i = 0; i < LMAX; ++i) { if (i >= byte) break; if (S[i] == '\n') { l++; c = 1; } else c++; }
-  *line = l; *col = c;
-}
-static int same_state(st_t a, st_t b) {
-  return a.byte == b.byte && a.line == b.line && a.col == b.col && a.occ == b.occ && a.c == b.c && a.fr == b.fr && a.cap == b.cap;
-}
 #define MIN(a, b) ((a) < (b) ? (a) : (b))
 
 #if defined(C07_THIN)
@@ -110,6 +59,7 @@ static void harness(void) {
   CHECK(o[0] == n && o[1] == 1, "string_input presents exactly the bytes of the string");
   CHECK(o[2] == 0 && o[3] == 1 && o[4] == 1, "string_input starts at byte 0, line 1, column 1");
   CHECK(o[5] == (u64)(n > 0) && o[6] == (u64)(n > 0), "a rule sees the same data through string_input");
+  OBS(o[0]); OBS(o[5]);
 #endif
 #if !defined(VF_SPLIT) || defined(V_argv)
   for (u64 i = 0; i < LMAX; ++i) if (i < n) ASSUME(b[i] != 0);
@@ -118,19 +68,78 @@ static void harness(void) {
   CHECK(o[0] == n && o[1] == 1, "argv_input presents exactly argv[n] up to its terminator");
   CHECK(o[2] == 0 && o[3] == 1 && o[4] == 1, "argv_input starts at byte 0, line 1, column 1");
   CHECK(o[5] == (u64)(n > 0) && o[6] == (u64)(n > 0), "a rule sees the same data through argv_input");
-#endif
   OBS(o[0]); OBS(o[5]);
+#endif
   REACH(n == 0, "empty data");
   REACH(n == LMAX, "data of maximal length");
 }
 #else
 
+/* ------------------------------------------------------------------ stream, reader, observation */
+static u8 S[LMAX + 1]; static u64 L, rd, T[LMAX + 1];
+static u64 n_calls, n_short, n_zero;
+static u8 *base_; static u64 M_, maximum_;
+
+void x_verif_base(u8 *p) { base_ = p; }
+
+u64 x_verif_read(u8 *buffer, u64 length) {
+  n_calls++;
+  CHECK(length >= 1, "the reader is never asked for zero bytes (it may return 0 only at the end of the stream)");
+  int inside = buffer >= base_ && (u64)(buffer - base_) <= M_ && length <= M_ - (u64)(buffer - base_);
+  CHECK(inside, "the reader is only asked to write inside the buffer");
+#ifndef __CPROVER__
+  if (!inside) return 0;
+#endif
+  if (rd >= L) { n_zero++; return 0; }
+  u64 full = MIN(length, L - rd);
+  u64 k = MIN(T[rd < LMAX ? rd : LMAX], full);
+  if (k < full) n_short++;
+  for (u64 i = 0; i < LMAX && i < CAPMAX; ++i) if (i < k) buffer[i] = S[rd + i];
+  rd += k;
+  return k;
+}
+
+typedef struct { u64 byte, line, col, occ, c, fr, cap, calls, shorts, rd; } st_t;
+static st_t st_[3]; static unsigned snaps_;
+/* snapshot = everything the public interface shows + the representation invariant checked on it */
+void x_verif_snap(u32 idx, u8 *p, u64 byte, u64 line, u64 col, u64 occ, u64 c, u64 fr, u64 cap) {
+  st_t s = { byte, line, col, occ, c, fr, cap, n_calls, n_short, rd };
+  if (idx < 3) st_[idx] = s;
+  snaps_ |= 1u << idx;
+  CHECK(cap == M_, "capacity is maximum + Chunk");
+  CHECK(c <= M_ && occ <= M_ - c && c + occ + fr == M_, "buffer <= current <= end <= buffer + capacity");
+  CHECK(p == base_ + c, "current() points into the buffer object");
+  CHECK(byte + occ == rd && rd <= L, "bytes consumed + bytes buffered = bytes read from the stream (nothing lost, nothing duplicated)");
+#ifndef C07_NO_CONTENT
+  for (u64 i = 0; i < CAPMAX; ++i) if (i < occ && byte + i < L) CHECK(p[i] == S[byte + i], "the buffered window is the stream at the consumed offset");
+#endif
+}
+static int same_state(st_t a, st_t b) {
+  return a.byte == b.byte && a.line == b.line && a.col == b.col && a.occ == b.occ && a.c == b.c && a.fr == b.fr && a.cap == b.cap;
+}
+static void recount(u64 byte, u64 *line, u64 *col) {
+  u64 l = 1, c = 1;
+  for (u64 i = 0; i < LMAX; ++i) { if (i >= byte) break; if (S[i] == '\n') { l++; c = 1; } else c++; }
+  *line = l; *col = c;
+}
+/* line/column after consuming k bytes at stream offset byte, as internal::bump counts them */
+static void advance(u64 byte, u64 k, u64 *line, u64 *col) {
+  for (u64 i = 0; i < CAPMAX; ++i) if (i < k && byte + i < L) { if (S[byte + i] == '\n') { (*line)++; *col = 1; } else (*col)++; }
+}
+
+/* action log of the rule queries */
+#define ALOG 8
+static u64 al_[2][ALOG][6]; static unsigned al_n[2], al_sel;
+void x_verif_act(u32 id, u64 byte, u64 line, u64 col, u64 size, u64 sum) {
+  unsigned n = al_n[al_sel];
+  if (n < ALOG) { u64 *e = al_[al_sel][n]; e[0] = id; e[1] = byte; e[2] = line; e[3] = col; e[4] = size; e[5] = sum; }
+  al_n[al_sel] = n + 1;
+}
+
 static u64 sop_[NSETUP], sarg_[NSETUP];
-static st_t s0;
-static void setup(void) {
+static void draw(void) {
   L = IN(0, LMAX);
-  S = S_;
-  for (u64 i = 0; i < LMAX; ++i) { u8 v = IN_BYTE(); if (i < L) S[i] = v; }
+  for (u64 i = 0; i < LMAX; ++i) { u8 v = IN_BYTE(); S[i] = i < L ? v : 0; }
   for (u64 i = 0; i <= LMAX; ++i) T[i] = IN(1, LMAX);
   maximum_ = IN(0, MAXMAX);
 #ifdef MAXIMUM
@@ -140,7 +149,7 @@ static void setup(void) {
   M_ = maximum_ + CHUNK;
   for (u64 i = 0; i < NSETUP; ++i) { sop_[i] = IN(0, 2); sarg_[i] = IN(0, AMAX); }
 #ifdef SETUP_SHAPE
-  /* fixed shape require, bump, discard-or-bump, require, bump with symbolic arguments (require(0) and bump(0) do nothing) */
+  /* fixed shape of the set-up, e.g. require, bump, discard-or-bump (3 = either); require(0) and bump(0) do nothing */
   { static const u8 shape[] = SETUP_SHAPE;
     for (u64 i = 0; i < NSETUP; ++i) {
 #ifdef __CPROVER__
@@ -153,34 +162,30 @@ static void setup(void) {
   /* D9: require() calls the reader once; excluded: every reader that returns less than both the request and the rest of the stream */
   for (u64 i = 0; i <= LMAX; ++i) KNOWN_EXCLUDE(T[i] != LMAX);
 #endif
-  rd = 0; n_calls = n_short = n_full = n_zero = 0; al_n[0] = al_n[1] = 0; al_sel = 0;
-  h_ = w_new(maximum_);
-  base_ = (u8 *)w_base(h_);
-  w_setup(h_, NSETUP, sop_, sarg_);
-  s0 = observe();
-  /* the state reached by real operations satisfies the invariant (induction hypothesis established, not assumed) */
-  invariant(s0);
-  u64 l, c; recount(s0.byte, &l, &c);
-  CHECK(s0.line == l && s0.col == c, "line/column equal a recount of the consumed prefix");
+  rd = 0; n_calls = n_short = n_zero = 0; al_n[0] = al_n[1] = 0; al_sel = 0; snaps_ = 0; base_ = 0;
+}
+/* the state reached by the set-up (its invariant was checked in the snapshot) */
+static void check_s0(void) {
+  u64 l, c; recount(st_[0].byte, &l, &c);
+  CHECK((snaps_ & 1) && st_[0].line == l && st_[0].col == c, "line/column equal a recount of the consumed prefix");
 }
 
 #if defined(C07_RULE_MODE)
 /* ------------------------------------------------------------------ one leaf rule: buffer_input vs memory_input over the rest of the stream */
-#ifndef C07_NEED
-#error "C07_NEED: the largest look-ahead (bytes from where the rule starts) the rule can ask for"
-#endif
 static void harness(void) {
-  setup();
+  draw();
   u64 ob[8], om[8];
-  u64 reads0 = n_short;
-  al_sel = 0; w_rule_buf(h_, ob);
-  st_t s1 = observe();
-  invariant(s1);
-  u64 short_in_rule = n_short - reads0;
-  al_sel = 1; w_rule_mem((char *)S + s0.byte, L - s0.byte, s0.byte, s0.line, s0.col, om);
+  al_sel = 0; w_rule_buf(maximum_, NSETUP, sop_, sarg_, ob);
+  check_s0();
+  st_t s0 = st_[0], s1 = st_[1];
+  u64 rem = L - s0.byte;
+  /* reference: the same rule on a memory_input over exactly the rest of the stream (exact-size object: reading past the end is an error) */
+  u8 *mb = (u8 *)exact_alloc_n(rem, LMAX);
+  for (u64 i = 0; i < LMAX; ++i) if (i < rem) mb[i] = S[s0.byte + i];
+  al_sel = 1; w_rule_mem((char *)mb, rem, s0.byte, s0.line, s0.col, om);
   CHECK(ob[0] != 5, "no exception other than std::overflow_error or the grammar's own parse error");
   CHECK(om[0] <= 2, "reference run on memory_input ends normally");
-  CHECK(s1.byte == ob[1] && s1.line == ob[4] && s1.col == ob[5], "position reported by the input is stable");
+  CHECK((snaps_ & 2) && s1.byte == ob[1] && s1.line == ob[4] && s1.col == ob[5], "position reported by the input is stable");
   if (ob[0] == 4) {
     CHECK(C07_OVERFLOW_OK, "std::overflow_error only when the look-ahead of the rule does not fit between the cursor and the end of the buffer");
   } else {
@@ -192,22 +197,23 @@ static void harness(void) {
     for (unsigned i = 0; i < ALOG; ++i) if (i < al_n[0] && i < al_n[1])
       for (unsigned j = 0; j < 6; ++j) CHECK(al_[0][i][j] == al_[1][i][j], "same action trace (rule, position, matched bytes)");
   }
-  w_delete(h_);
   OBS(ob[0]); OBS(ob[1]); OBS(om[0]); OBS(om[1]); OBS(al_n[0]);
 #if defined(KF_ONLY_D9)
   REACH(1, "reachable");
 #else
+#ifndef C07_NEVER_MATCHES
   REACH(ob[0] == 1 && om[0] == 1, "rule matches on both inputs");
+#endif
 #ifndef C07_NEVER_FAILS
   REACH(ob[0] == 0 && om[0] == 0, "rule fails on both inputs");
 #endif
 #ifndef C07_NO_OVERFLOW
   REACH(ob[0] == 4, "std::overflow_error thrown");
 #endif
-#ifndef KF_EXCLUDE_D9
-  REACH(short_in_rule > 0 && ob[0] == 1 && ob[1] > s0.byte, "the rule matched across a short read");
+#if !defined(KF_EXCLUDE_D9) && !defined(C07_NO_SHORT)
+  REACH(s1.shorts > s0.shorts && ob[0] == 1 && s1.rd > s0.rd, "the rule matched across a short read");
 #endif
-  REACH(s0.c > 0 && s0.occ > 0 && s0.byte > 0, "rule starts in the middle of the buffer");
+  REACH(s0.c > 0 && s0.byte > 0, "rule starts in the middle of the buffer");
 #ifdef C07_REACH1
   REACH(C07_REACH1, C07_REACH1_MSG);
 #endif
@@ -216,136 +222,139 @@ static void harness(void) {
 
 #else
 /* ------------------------------------------------------------------ one operation */
-static void harness(void) {
-  u64 a = IN(0, AMAX), k_ = IN(0, AMAX), ok = IN(0, 1);
-  setup();
-  u64 calls0 = n_calls, short0 = n_short, rd0 = rd;
-  u64 rem = L - s0.byte;                       /* logical rest of the stream */
-  u64 k = MIN(k_, s0.occ);
-  u64 v = 0; int r = 0;
-  st_t s1;
-  (void)a; (void)k; (void)ok; (void)v; (void)r; (void)rem; (void)calls0; (void)short0; (void)rd0;
-
-#if defined(V_require) || defined(V_size) || defined(V_end) || defined(V_empty) || !defined(VF_SPLIT)
-  {
-#if defined(V_size)
-    r = w_size(h_, a, &v);
-#elif defined(V_end)
-    r = w_end(h_, a, &v);
-#elif defined(V_empty)
-    a = 1; r = w_empty(h_, &v);
-#else
-    r = w_require(h_, a);
+#define Q_REQUIRE 0
+#define Q_SIZE 1
+#define Q_END 2
+#define Q_EMPTY 3
+#define Q_BUMP 4
+#define Q_BUMP_IN_THIS_LINE 5
+#define Q_BUMP_TO_NEXT_LINE 6
+#define Q_DISCARD 7
+#define Q_REWIND 8
+#ifndef C07_OP
+#define C07_OP (-1)          /* native builds run all operations; REACH is only evaluated by CBMC, one operation per query */
 #endif
-    s1 = observe(); invariant(s1);
+#define QSEL(x) (C07_OP == (x))
+static u64 a_, k_, ok_;
+static void op(int q) {
+  u64 o[2] = { 9, 0 };
+  u64 a = q == Q_EMPTY ? 1 : a_, ok = ok_;
+  rd = 0; n_calls = n_short = n_zero = 0; snaps_ = 0; base_ = 0;
+  switch (q) {
+    case Q_REQUIRE: w_require(maximum_, NSETUP, sop_, sarg_, a, k_, (int)ok, o); break;
+    case Q_SIZE: w_size(maximum_, NSETUP, sop_, sarg_, a, k_, (int)ok, o); break;
+    case Q_END: w_end(maximum_, NSETUP, sop_, sarg_, a, k_, (int)ok, o); break;
+    case Q_EMPTY: w_empty(maximum_, NSETUP, sop_, sarg_, a, k_, (int)ok, o); break;
+    case Q_BUMP: w_bump(maximum_, NSETUP, sop_, sarg_, a, k_, (int)ok, o); break;
+    case Q_BUMP_IN_THIS_LINE: w_bump_in_this_line(maximum_, NSETUP, sop_, sarg_, a, k_, (int)ok, o); break;
+    case Q_BUMP_TO_NEXT_LINE: w_bump_to_next_line(maximum_, NSETUP, sop_, sarg_, a, k_, (int)ok, o); break;
+    case Q_DISCARD: w_discard(maximum_, NSETUP, sop_, sarg_, a, k_, (int)ok, o); break;
+    default: w_rewind(maximum_, NSETUP, sop_, sarg_, a, k_, (int)ok, o); break;
+  }
+  check_s0();
+  CHECK((snaps_ & 3) == 3, "state before and after the operation observed");
+  st_t s0 = st_[0], s1 = st_[1];
+  u64 r = o[0], v = o[1], rem = L - s0.byte, k = MIN(k_, s0.occ);
+  OBS(r); OBS(v); OBS(s1.byte); OBS(s1.line); OBS(s1.col); OBS(s1.occ); OBS(s1.c);
+
+  if (q == Q_REQUIRE || q == Q_SIZE || q == Q_END || q == Q_EMPTY) {
     int fits = s0.c + a <= M_;
     CHECK(r == 0 || r == 1, "require/size/end/empty throw nothing but std::overflow_error");
     if (a <= s0.occ) {
-      CHECK(r == 0 && n_calls == calls0 && same_state(s0, s1), "enough data buffered: no read, no change");
+      CHECK(r == 0 && s1.calls == s0.calls && same_state(s0, s1), "enough data buffered: no read, no change");
     } else if (!fits) {
       CHECK(r == 1, "std::overflow_error when the requested window does not fit between the cursor and the end of the buffer");
-      CHECK(n_calls == calls0 && same_state(s0, s1), "the failed request changes nothing");
+      CHECK(s1.calls == s0.calls && same_state(s0, s1), "the failed request changes nothing");
     } else {
       CHECK(r == 0, "no error when the requested window fits into the buffer");
-      CHECK(n_calls > calls0, "the reader is asked for more data");
+      CHECK(s1.calls > s0.calls, "the reader is asked for more data");
       CHECK(s1.byte == s0.byte && s1.line == s0.line && s1.col == s0.col && s1.c == s0.c, "cursor and counters untouched by a refill");
       CHECK(s1.occ >= MIN(a, rem), "afterwards min(amount, rest of the stream) bytes are available, whatever sizes the reader returned");
     }
     CHECK(s1.occ <= rem, "never more bytes than the stream has");
-#if defined(V_size) || defined(V_end)
-    if (r == 0) CHECK(v == s1.occ && v >= MIN(a, rem) && v <= rem, "size(a)/end(a) agree with the logical rest of the stream");
-#endif
-#if defined(V_empty)
-    if (r == 0) CHECK(v == (u64)(rem == 0), "empty() exactly at the end of the stream");
-#endif
-    OBS(r); OBS(v); OBS(s1.occ);
-#if !defined(KF_ONLY_D9)
+    if ((q == Q_SIZE || q == Q_END) && r == 0) CHECK(v == s1.occ && v >= MIN(a, rem) && v <= rem, "size(a)/end(a) agree with the logical rest of the stream");
+    if (q == Q_EMPTY && r == 0) CHECK(v == (u64)(rem == 0), "empty() exactly at the end of the stream");
+#if !defined(KF_ONLY_D9) && (QSEL(Q_REQUIRE) || QSEL(Q_SIZE) || QSEL(Q_END) || QSEL(Q_EMPTY))
     REACH(r == 1, "std::overflow_error thrown");
-#if !defined(V_empty)
+#if !QSEL(Q_EMPTY)
+    {
 #ifndef KF_EXCLUDE_D9
-    REACH(r == 0 && n_short > short0 && a > s0.occ + 1 && s1.occ >= a, "request satisfied although the reader returned a short read");
+      REACH(r == 0 && s1.shorts > s0.shorts && a > s0.occ + 1 && s1.occ >= a, "request satisfied although the reader returned a short read");
 #endif
-    REACH(r == 0 && a > s0.occ && s1.occ < a && s1.occ == rem, "request larger than the rest of the stream");
-#endif
-    REACH(r == 0 && a > s0.occ && s0.c > 0 && s0.occ > 0, "refill with the cursor in the middle of the buffer");
-#endif
-  }
-#endif
-
-#if defined(V_bump) || defined(V_bump_line) || !defined(VF_SPLIT)
-  {
-    /* line/column as internal::bump counts them: on the k bytes at the cursor */
-    s0 = observe(); k = MIN(k_, s0.occ);
-    u64 l = s0.line, c = s0.col;
-    for (u64 i = 0; i < CAPMAX; ++i) if (i < k) { if (S[s0.byte + i] == '\n') { l++; c = 1; } else c++; }
-    calls0 = n_calls;
-#if defined(V_bump_line)
-    u64 which = ok;
-    if (which) { w_bump_to_next_line(h_, k); l = s0.line + 1; c = 1; } else { w_bump_in_this_line(h_, k); l = s0.line; c = s0.col + k; }
+      REACH(r == 0 && a > s0.occ && s1.occ < a && s1.occ == rem, "request larger than the rest of the stream");
+      REACH(r == 0 && a > s0.occ && s0.c > 0 && s0.occ > 0, "refill with the cursor in the middle of the buffer");
+    }
 #else
-    w_bump(h_, k);
+    {
+      REACH(r == 0 && v == 1 && s0.byte > 0, "empty() at the end of a non-empty stream");
+      REACH(r == 0 && v == 0 && s0.occ == 0 && s0.c > 0, "empty() refills an exhausted window");
+    }
 #endif
-    s1 = observe(); invariant(s1);
-    CHECK(s1.byte == s0.byte + k && s1.line == l && s1.col == c, "bump advances byte/line/column like a memory input");
-    CHECK(s1.c == s0.c + k && s1.occ == s0.occ - k && n_calls == calls0, "bump moves the cursor inside the window and reads nothing");
-    OBS(s1.byte); OBS(s1.line); OBS(s1.col);
-#if !defined(KF_ONLY_D9)
-    REACH(k > 1 && s1.line > s0.line && s0.byte > 0, "bump across a line ending");
-    REACH(k > 0 && s1.occ == 0 && s0.c > 0, "bump to the end of the window");
 #endif
   }
-#endif
 
-#if defined(V_discard) || !defined(VF_SPLIT)
-  {
-    s0 = observe();
-    calls0 = n_calls;
-    w_discard(h_);
-    s1 = observe(); invariant(s1);
-    CHECK(n_calls == calls0, "discard reads nothing");
+  if (q == Q_BUMP || q == Q_BUMP_IN_THIS_LINE || q == Q_BUMP_TO_NEXT_LINE) {
+    u64 l = s0.line, c = s0.col;
+    if (q == Q_BUMP_IN_THIS_LINE) c = s0.col + k;
+    else if (q == Q_BUMP_TO_NEXT_LINE) { l = s0.line + 1; c = 1; }
+    else advance(s0.byte, k, &l, &c);
+    CHECK(r == 0, "bump throws nothing");
+    CHECK(s1.byte == s0.byte + k && s1.line == l && s1.col == c, "bump advances byte/line/column like a memory input");
+    CHECK(s1.c == s0.c + k && s1.occ == s0.occ - k && s1.calls == s0.calls, "bump moves the cursor inside the window and reads nothing");
+#if !defined(KF_ONLY_D9) && (QSEL(Q_BUMP) || QSEL(Q_BUMP_IN_THIS_LINE) || QSEL(Q_BUMP_TO_NEXT_LINE))
+    REACH(k > 1 && s0.byte > 0 && s1.occ > 0, "bump inside the window");
+    REACH(k > 0 && s1.occ == 0 && s0.c > 0, "bump to the end of the window");
+#if QSEL(Q_BUMP)
+    REACH(k > 1 && s1.line > s0.line && s1.col > 1, "bump across a line ending");
+#endif
+#endif
+  }
+
+  if (q == Q_DISCARD) {
+    st_t s2 = st_[2];
+    CHECK((snaps_ & 4) != 0, "state after the follow-up require observed");
+    CHECK(s1.calls == s0.calls, "discard reads nothing");
     CHECK(s1.byte == s0.byte && s1.line == s0.line && s1.col == s0.col && s1.occ == s0.occ, "discard keeps the unconsumed bytes and all counters");
     CHECK(s1.c == 0 || s1.c == s0.c, "discard either moves the window to the start of the buffer or does nothing");
     CHECK(s1.c <= CHUNK, "after discard at most Chunk consumed bytes remain in front of the cursor");
     CHECK(s1.c + maximum_ <= M_, "after discard at least `maximum` bytes can be buffered");
-    /* the documented guarantee, through the real require */
-    u64 a2 = MIN(a, maximum_);
-    r = w_require(h_, a2);
     CHECK(r == 0, "after discard, require(a) with a <= maximum never overflows");
-    st_t s2 = observe(); invariant(s2);
-    OBS(s1.c); OBS(r);
-#if !defined(KF_ONLY_D9)
+    CHECK(s2.occ >= MIN(MIN(a, maximum_), rem), "after discard, require(a) with a <= maximum delivers min(a, rest of the stream) bytes");
+    OBS(s2.occ);
+#if !defined(KF_ONLY_D9) && QSEL(Q_DISCARD)
     REACH(s0.c > 0 && s1.c == 0 && s0.occ > 1, "discard moved data");
-    REACH(s0.c > 0 && s1.c == s0.c, "discard left fewer than Chunk consumed bytes in place");
+    REACH(s0.c > 0 && s1.c == s0.c, "discard left at most Chunk consumed bytes in place");
+    REACH(s2.occ > s1.occ && s1.c == 0 && s0.c > 0, "refill after a discard that moved data");
 #endif
   }
-#endif
 
-#if defined(V_rewind) || !defined(VF_SPLIT)
-  {
-    s0 = observe();
-    rem = L - s0.byte;
-    r = w_rewind(h_, a, k_, (int)ok, &v);
-    s1 = observe(); invariant(s1);
+  if (q == Q_REWIND) {
     CHECK(r == 0 || r == 1, "nothing but std::overflow_error");
     CHECK(s1.c >= s0.c && s1.occ + (s1.c - s0.c) >= s0.occ, "the window only grows while a rewind guard is live");
     if (r == 0 && ok) {
       u64 l = s0.line, c = s0.col;
-      for (u64 i = 0; i < CAPMAX; ++i) if (i < v) { if (S[s0.byte + i] == '\n') { l++; c = 1; } else c++; }
+      advance(s0.byte, v, &l, &c);
       CHECK(s1.byte == s0.byte + v && s1.c == s0.c + v && s1.line == l && s1.col == c, "guard left with success: position kept");
     } else {
       CHECK(s1.byte == s0.byte && s1.line == s0.line && s1.col == s0.col && s1.c == s0.c, "guard left without success (or by an exception): cursor and counters restored");
     }
-    OBS(r); OBS(v); OBS(s1.byte);
-#if !defined(KF_ONLY_D9)
+#if !defined(KF_ONLY_D9) && QSEL(Q_REWIND)
     REACH(r == 0 && !ok && v > 1 && s0.c > 0, "rewound over consumed bytes");
     REACH(r == 0 && !ok && v > 0 && s1.occ > s0.occ, "rewound after the window was refilled");
     REACH(r == 1, "std::overflow_error unwinds through the guard");
     REACH(r == 0 && ok && v > 0, "guard left with success");
 #endif
   }
-#endif
+}
 
-  w_delete(h_);
+static void harness(void) {
+  a_ = IN(0, AMAX); k_ = IN(0, AMAX); ok_ = IN(0, 1);
+  draw();
+#ifdef VF_SPLIT
+  op(C07_OP);
+#else
+  for (int q = Q_REQUIRE; q <= Q_REWIND; ++q) op(q);
+#endif
 #if defined(KF_ONLY_D9)
   REACH(1, "reachable");
 #endif
